@@ -68,6 +68,10 @@ func (r *round3) VerifyMessage(msg round.Message) error {
 		return round.ErrInvalidContent
 	}
 
+	if !r.Paillier[to].ValidateCiphertexts(body.DeltaD, body.ChiD) || !r.Paillier[from].ValidateCiphertexts(body.DeltaF, body.ChiF) {
+		return errors.New("received invalid ciphertext")
+	}
+
 	if !body.DeltaProof.Verify(r.HashForID(from), zkaffg.Public{
 		Kv:       r.K[to],
 		Dv:       body.DeltaD,
